@@ -416,9 +416,37 @@ def rule_exec_order(ctx, rep, rule_id="R-EXEC-ORDER", declare=True):
               f"run() does not pass the single, un-reassigned result of match_codemods to both apply_codemods and compile_results ({consumers})")
     ac = ctx.prog.func("codemodder.codemodder.apply_codemods")
     loops = [n for n in walk_no_nested(ac.node) if isinstance(n, ast.For)]
-    ok = len(loops) == 1 and isinstance(loops[0].iter, ast.Name) and loops[0].iter.id in ac.params()
+    it = loops[0].iter if loops else None
+    while isinstance(it, ast.Call) and isinstance(it.func, ast.Name) and it.func.id in ("list", "tuple", "iter") and len(it.args) == 1 and not it.keywords:
+        it = it.args[0]  # order-preserving copies
+    ok = len(loops) == 1 and isinstance(it, ast.Name) and it.id in ac.params()
     rep.check(rule_id, ac.qname, ac.loc(loops[0]) if loops else ac.loc(), ok, "apply-loop",
               "apply_codemods does not loop once over its codemods parameter in the given order")
+    # nothing but "the project has no files at all" (or an empty selection) may end apply_codemods before the loop
+    fa = ctx.flow(ac)
+    r = ctx.resolver(ac)
+    for ret in [n for n in walk_no_nested(ac.node) if isinstance(n, ast.Return)]:
+        if loops and ret.lineno > loops[0].lineno:
+            continue
+        bad = None
+        for pol, txt in fa.must_at(ret):
+            if txt.startswith(("EV:", "MATCH:", "ITER:")):
+                continue
+            try:
+                e = r.expand(ast.parse(txt, mode="eval").body)
+            except SyntaxError:
+                continue
+            if isinstance(e, ast.Compare) and len(e.ops) == 1:
+                e = e.left  # `x is None`, `len(x) == 0`, `x == []`: still a statement about x
+            while isinstance(e, ast.Call) and call_name(e) in ("len", "list", "bool") and e.args:
+                e = e.args[0]
+            e = r.expand(e) if isinstance(e, ast.Name) else e
+            whole = (isinstance(e, ast.Attribute) and e.attr == "files_to_analyze") or (isinstance(e, ast.Name) and e.id in ac.params())
+            if not whole:
+                bad = txt
+        rep.check(rule_id, ac.qname, ac.loc(ret), bad is None, "skip-all-guard",
+                  f"apply_codemods returns before running any codemod under `{(bad or '')[:60]}`: only an empty project (files_to_analyze) or an empty selection "
+                  "means there is nothing to do - find_and_fix_paths, for one, applies default excludes that tool-driven codemods ignore")
 
 
 
